@@ -2142,17 +2142,25 @@ class PyCdlib:
                         if self.eltorito_boot_catalog is not None and abs_file_data_extent == self.eltorito_boot_catalog.extent_location():
                             self.eltorito_boot_catalog.add_dirrecord(next_entry)
                         else:
-                            if abs_file_data_extent in extent_to_inode:
-                                ino = extent_to_inode[abs_file_data_extent]
+                            # Zero-length files have no data extent to link
+                            # them by, but names that share a File Entry are
+                            # still links to each other; key those by the
+                            # (negated) extent of the File Entry.
+                            inode_key = abs_file_data_extent
+                            if inode_key == 0:
+                                inode_key = -abs_file_entry_extent
+                            if inode_key in extent_to_inode:
+                                ino = extent_to_inode[inode_key]
                             else:
                                 ino = inode.Inode()
                                 ino.parse(abs_file_data_extent,
                                           next_entry.get_data_length(),
                                           self._cdfp, self.logical_block_size)
-                                extent_to_inode[abs_file_data_extent] = ino
+                                extent_to_inode[inode_key] = ino
                                 self.inodes.append(ino)
 
                             ino.linked_records.append((next_entry, False))
+                            ino.num_udf += 1
                             next_entry.inode = ino
 
     def _open_fp(self, fp):
